@@ -21,9 +21,23 @@ def run_update(sim, prog, name, config, n=None, distrust=None):
     st = S.State()
     presets = {}
     if distrust is not None:
-        dty = [t for nm, t in sim.adt_fields(subst(fn["sig_inputs"][0], gargs)["ty"]) if is_adt(t, "DifferentialDistrust")]
-        fname = [nm for nm, t in sim.adt_fields(subst(fn["sig_inputs"][0], gargs)["ty"]) if is_adt(t, "DifferentialDistrust")][0]
-        presets[fname] = sim.mk_enum(dty[0], distrust)
+        # the trust mode is whatever the crate's own constructor stores for it (a field of the public enum today; a private
+        # representation tomorrow): run `with_distrust(mode)` and keep its non-terminal leaves
+        import layout
+        ctors = [f for f in prog.find_fns(name="with_distrust", self_name=name) if not f.get("impl_trait")]
+        dd = prog.adt_by_name("DifferentialDistrust")
+        if len(ctors) != 1 or not dd:
+            raise AnchorMissing("%s::with_distrust" % name)
+        dty = {"k": "adt", "did": dd["did"], "name": "DifferentialDistrust", "args": []}
+        ls = sim.run(ctors[0], sim.identity_gargs(ctors[0]), [sim.mk_enum(dty, distrust)], S.State())
+        rets = [l for l in ls if l.kind == "return"]
+        if len(rets) != 1 or len(ls) != 1:
+            raise AnchorMissing("%s::with_distrust(%s) does not simply return" % (name, distrust))
+        v = sim.final_value(rets[0].state, rets[0].value)
+        for dotted, t, path in layout.leaves(sim, v.ty, stop=("RefCell", "Reference", "SettableData")):
+            if D.find_ty(t, "Terminal"):
+                continue
+            presets[dotted] = layout.get_path(sim, None, v, path)
     dh = D.DeviceHeap(sim, prog, fn, gargs, st, presets)
     a0 = dh.build(config)
     pre = st.copy()
